@@ -113,7 +113,7 @@ package roundrobin
 //@   ensures refused: result != nil ==> s.weight == old(s.weight) && w < 0
 
 //@ func (*RoundRobin).findServerByURL
-//@   props C02
+//@   props C02 C20
 //@   holds r.mutex
 //@   requires poolOK(r) && u != nil
 //@   ensures both: (result0 == nil) <==> (result1 == -1)
